@@ -65,8 +65,8 @@ def ev(e, env, enums=None):
         # an element of a constant array whose values the caller supplied (env["@arrays"][qualified name] = [ints])
         b = ir.unwrap_all_casts(e.get("base"))
         arrs = env.get("@arrays") or {}
-        if isinstance(b, dict) and b.get("k") == "Ref" and (b.get("qn") or b.get("n")) in arrs:
-            vals = arrs[b.get("qn") or b.get("n")]
+        if isinstance(b, dict) and b.get("k") == "Ref" and ((b.get("qn") or b.get("n")) in arrs or b.get("n") in arrs):
+            vals = arrs.get(b.get("qn") or b.get("n")) or arrs[b.get("n")]
             i = ev(unwrap(e["idx"]), env, enums)
             if 0 <= i < len(vals):
                 return vals[i]
